@@ -251,6 +251,21 @@ def run_impl(case, run):
         for brw, snap in snaps:
             if snapshot(brw) != snap:
                 side.append(f'op {op[0]} modified an existing browser')
+        # questions that only read: asking for a key that no item carries, for the data key, the keys, the length, the text
+        for brw in brs:
+            if brw is None:
+                continue
+            snap = snapshot(brw)
+            keys_before = sorted(brw.keys())
+            try:
+                brw.available_values('no-such-key')
+                brw.available_values(brw.data_key)
+                _ = 'no-such-key' in brw.keys(), len(brw), str(brw), repr(brw)
+            except Exception as exc:  # pylint: disable=broad-except
+                side.append(f'a read-only question raised {type(exc).__name__}: {exc}'[:160])
+            if snapshot(brw) != snap or sorted(brw.keys()) != keys_before:
+                side.append('asking for the available values of a key that no item carries (or the keys, the length, the '
+                            'text) modified the browser')
         for content, glob, before in inputs:
             if (content, glob) != before:
                 side.append(f'op {op[0]} modified an input dictionary')
